@@ -450,3 +450,48 @@ func (p *Prog) collectStores(fn *ssa.Function) {
 		}
 	})
 }
+
+// short aliases used by rule files that do not import go/ssa directly
+type (
+	ssaFn        = ssa.Function
+	ssaBlock     = ssa.BasicBlock
+	ssaInstr     = ssa.Instruction
+	ssaMapUpdate = ssa.MapUpdate
+)
+
+// ssaFuncsOf returns the declared functions and methods of an SSA package.
+func ssaFuncsOf(p *Prog, sp *ssa.Package) map[*ssa.Function]bool {
+	out := map[*ssa.Function]bool{}
+	for _, m := range sp.Members {
+		switch x := m.(type) {
+		case *ssa.Function:
+			if x.Blocks != nil {
+				out[x] = true
+			}
+		case *ssa.Type:
+			for _, T := range []types.Type{x.Type(), types.NewPointer(x.Type())} {
+				ms := p.SSA.MethodSets.MethodSet(T)
+				for i := 0; i < ms.Len(); i++ {
+					if fn := p.SSA.MethodValue(ms.At(i)); fn != nil && fn.Pkg == sp && fn.Synthetic == "" && fn.Blocks != nil {
+						out[fn] = true
+					}
+				}
+			}
+		}
+	}
+	return out
+}
+
+// isLoadOfField: v is a load of struct field fv (any base).
+func isLoadOfField(v ssa.Value, fv *types.Var) bool {
+	u, ok := v.(*ssa.UnOp)
+	if !ok || u.Op != token.MUL {
+		return false
+	}
+	fa, ok := u.X.(*ssa.FieldAddr)
+	if !ok {
+		return false
+	}
+	st := fa.X.Type().Underlying().(*types.Pointer).Elem().Underlying().(*types.Struct)
+	return st.Field(fa.Field) == fv
+}
